@@ -210,6 +210,16 @@ class ValidatorValidate(Contract):
 
 
 def _gvs_at_call(self, E, v, version, schema_name="map"):
+    empty_model = isinstance(v.expanded_schemas, MDict) and not v.expanded_schemas.entries and v.expanded_schemas.tail is None
+    if not S.is_sym(version) and not S.is_sym(schema_name) and isinstance(schema_name, str) and (isinstance(v.expanded_schemas, dict) or empty_model):
+        # concrete request on a Validator with concrete (or still empty) caches, as in utils.create: the real code runs natively
+        try:
+            if empty_model:
+                from mappyfile.validator import Validator
+                return Validator().get_versioned_schema(version, schema_name)
+            return v.get_versioned_schema(version, schema_name)
+        except IOError as ex:
+            raise PyRaise(IOError, ex.args, "get_versioned_schema")
     g = SchemaGhost(("expanded", schema_name, version))
     E.ctx.notes.append(("versioned-call", id(g)))
     return g
@@ -634,3 +644,86 @@ class CliSchema(Contract):
             t = op[0].written[0]
             ok = isinstance(t, Seg) and t.key[0] == "json.dumps" and dict(t.key[2]) == {"sort_keys": True, "indent": 4}
             yield "json-of-the-api-schema", ok and isinstance(t.key[1], SchemaGhost) and t.key[1].name[2] is version and t.key[1].name[1] == "map"
+
+
+# ---------------------------------------------------------------------------------------------
+# utils.create, constructors, Canonize
+# ---------------------------------------------------------------------------------------------
+
+@register
+class Create(Contract):
+    """create(type, version) = {"__type__": type} plus every declared default of the (versioned) schema, keys sorted;
+    an unknown type is a SyntaxError.  E over all object types x {no version, 7.6} through the real schemas."""
+    target = "mappyfile.utils.create"
+    props = ("C19",)
+
+    @property
+    def cases(self):
+        from spec import schemas as SC
+        return [f"{t}:{v}" for t in SC.object_types() for v in ("none", "7.6")] + ["zz_unknown:none"]
+
+    def build(self, E, case):
+        t, v = case.split(":")
+        return (t, None if v == "none" else float(v)), {}
+
+    def ensures(self, E, case, args, kwargs, out):
+        from spec import schemas as SC
+        import tables
+        t, v = args
+        if t == "zz_unknown":
+            yield "unknown-type-SyntaxError", out.raised(SyntaxError)
+            return
+        ok = out.kind == "return"
+        yield "returns", ok
+        if not ok:
+            return
+        d = out.value
+        items = d.items() if not hasattr(d, "entries") else d.entries
+        items = [(k, SC.plain(val)) for k, val in items]
+        props = SC.expanded(t)["properties"]
+        if v is not None:
+            props = tables.ideal_prune(props, v)
+        want = [("__type__", t)] + [(k, p["default"]) for k, p in sorted(props.items()) if isinstance(p, dict) and "default" in p]
+        yield "type-then-sorted-defaults", items == want
+
+    def at_call(self, E, type, version=None):
+        raise NotImplementedError
+
+
+del Create.at_call
+
+
+@register
+class ParserInit(Contract):
+    target = "mappyfile.parser.Parser.__init__"
+    props = ("C12", "C20")
+
+    def build(self, E, case):
+        from mappyfile.parser import Parser
+        return (Parser.__new__(Parser), E.bool("expand"), E.bool("comments")), {}
+
+    def ensures(self, E, case, args, kwargs, out):
+        p, ex, com = args
+        yield "returns", out.kind == "return"
+        if out.kind == "return":
+            yield "flags-stored", S.and_(S.eq(p.expand_includes, ex), S.eq(p.include_comments, com))
+            yield "fresh-empty-comment-buffer", isinstance(p._comments, list) and p._comments == []
+            yield "own-lalr-parser", isinstance(p.lalr, LalrGhost)
+
+
+@register
+class ToDictInit(Contract):
+    target = "mappyfile.transformer.MapfileToDict.__init__"
+    props = ("C12", "C13")
+
+    def build(self, E, case):
+        from mappyfile.transformer import MapfileToDict
+        return (MapfileToDict.__new__(MapfileToDict), E.bool("pos"), E.bool("com")), {}
+
+    def ensures(self, E, case, args, kwargs, out):
+        from mappyfile.transformer import MapfileTransformer
+        m, pos, com = args
+        yield "returns", out.kind == "return"
+        if out.kind == "return":
+            yield "flags-stored", S.and_(S.eq(m.include_position, pos), S.eq(m.include_comments, com))
+            yield "default-transformer-class", m.transformer_class is MapfileTransformer
